@@ -75,7 +75,9 @@ func (r *R) liftedSites(fn *ssa.Function, depth int, outer *siteCtx, want map[st
 		for _, ss := range r.p.Callers(core.ShortFn(h)) {
 			n += len(ss)
 		}
-		if n != 1 {
+		if n != 1 && !core.IsNewFunc(h) {
+			// an existing helper with several callers has its own contract; a helper
+			// introduced after the reference tree is judged at each call site
 			continue
 		}
 		// context of the helper body
@@ -243,6 +245,10 @@ func (r *R) onlyCallers(rule, callee string, min int, allowed ...string) {
 			r.c.OK(rule, key, site, "caller is in the confirmed set")
 		} else if via := r.singleCallerChain(n, al, 3); via != "" {
 			r.c.OK(rule, key, site, "called from a helper used only by a confirmed caller ("+via+")")
+		} else if via := r.newHelperOfAllowed(n, al, 3); via != "" {
+			r.c.OK(rule, key, site, "called from a new helper reached only from confirmed callers ("+via+")")
+		} else if a := r.inlinedAway(n, callee, al); a != "" {
+			r.c.OK(rule, key, site, "confirmed caller "+a+" was inlined into its caller "+n)
 		} else {
 			r.c.Bad(rule, key, site, fmt.Sprintf("new caller of %s: %s is not in the confirmed set {%s}; if this caller is legitimate a reviewer must confirm it and add it to the table", callee, n, strings.Join(allowed, ", ")))
 		}
@@ -581,6 +587,68 @@ func (r *R) singleCallerChain(name string, allowed map[string]bool, depth int) s
 			return chain
 		}
 		cur = up
+	}
+	return ""
+}
+
+// newHelperOfAllowed: name is a function that did not exist on the reference
+// tree and every chain of callers upwards reaches an allowed function (through
+// new functions only) within depth steps.
+func (r *R) newHelperOfAllowed(name string, allowed map[string]bool, depth int) string {
+	var fn *ssa.Function
+	for _, f := range r.p.Prod {
+		if core.ShortFn(f) == name {
+			fn = f
+		}
+	}
+	if fn == nil || !core.IsNewFunc(fn) || depth == 0 {
+		return ""
+	}
+	callers := r.p.Callers(name)
+	if len(callers) == 0 {
+		return ""
+	}
+	var via []string
+	for c := range callers {
+		up := core.ShortFn(core.TopLevel(c))
+		if allowed[up] {
+			via = append(via, up)
+			continue
+		}
+		if v := r.newHelperOfAllowed(up, allowed, depth-1); v != "" {
+			via = append(via, v)
+			continue
+		}
+		return ""
+	}
+	sort.Strings(via)
+	return strings.Join(via, ", ") + " → " + name
+}
+
+// inlinedAway: some allowed caller A of callee no longer exists (or no longer
+// calls callee) and, on the reference tree, n called A — A's body was inlined
+// into n.
+func (r *R) inlinedAway(n, callee string, allowed map[string]bool) string {
+	cur := map[string]bool{}
+	for fn := range r.p.Callers(callee) {
+		cur[core.ShortFn(core.TopLevel(fn))] = true
+	}
+	for a := range allowed {
+		if cur[a] {
+			continue // still calls it itself
+		}
+		// did n call a on the reference tree?
+		for _, f := range core.RefFuncs() {
+			if core.Short(f) != n {
+				continue
+			}
+			cs, _ := core.RefCallees(f)
+			for _, c := range cs {
+				if c == a {
+					return a
+				}
+			}
+		}
 	}
 	return ""
 }
